@@ -31,6 +31,8 @@ LAYOUTS = [
     {"comments": True, "nonl": True},
     {"pparam": True, "ret": True, "comments": True},
     {"nonl": True},
+    {"paren_cond": True},
+    {"paren_cond": True, "ret": True},
 ]
 _state = {"seed": 0}
 
